@@ -136,10 +136,93 @@ func positiveForalls(h *Term) []*Term {
 
 // instantiate returns extra (implied) assertions: every hypothesis with positive universals,
 // with each universal replaced by the conjunction of its instances at cands.
-func instantiate(hyps []*Term, cands []*Term) []*Term {
-	if len(cands) == 0 {
-		return nil
+// classOfUF: heap class part of a heap UF name ("E:uint8#0@lp!3" -> "E:uint8#0").
+func classOfUF(name string) string {
+	for i := len(name) - 1; i >= 0; i-- {
+		if name[i] == '@' {
+			return name[:i]
+		}
 	}
+	return name
+}
+
+// groundReads collects, per element-heap class, the index arguments of ground reads.
+func groundReads(ts []*Term) map[string][]*Term {
+	out := map[string][]*Term{}
+	seen := map[int]bool{}
+	var rec func(t *Term)
+	rec = func(t *Term) {
+		if seen[t.id] {
+			return
+		}
+		seen[t.id] = true
+		if t.op == "app" && !t.bound && len(t.args) == 2 && len(t.name) > 2 && t.name[0] == 'E' && t.name[1] == ':' && t.args[1].sort.K == SBV {
+			c := classOfUF(t.name)
+			if len(out[c]) < 24 {
+				out[c] = append(out[c], t.args[1])
+			}
+		}
+		for _, a := range t.args {
+			rec(a)
+		}
+	}
+	for _, t := range ts {
+		rec(t)
+	}
+	return out
+}
+
+// triggerCands: for a universal over bv with body reading E(a, o+bv) (or E(a, bv)), the terms
+// idx-o for every ground read index idx of the same element class.
+func triggerCands(bv *Term, body *Term, reads map[string][]*Term) []*Term {
+	var out []*Term
+	seenC := map[int]bool{}
+	seen := map[int]bool{}
+	var rec func(t *Term)
+	rec = func(t *Term) {
+		if seen[t.id] || !t.bound {
+			return
+		}
+		seen[t.id] = true
+		if t.op == "app" && len(t.args) == 2 && len(t.name) > 2 && t.name[0] == 'E' && t.name[1] == ':' {
+			idx := t.args[1]
+			var off *Term
+			ok := false
+			if idx == bv {
+				ok = true
+			} else if idx.op == "bvadd" && len(idx.args) == 2 {
+				if idx.args[1] == bv && !idx.args[0].bound {
+					off, ok = idx.args[0], true
+				} else if idx.args[0] == bv && !idx.args[1].bound {
+					off, ok = idx.args[1], true
+				}
+			}
+			if ok {
+				for _, g := range reads[classOfUF(t.name)] {
+					if g.sort != bv.sort {
+						continue
+					}
+					c := g
+					if off != nil {
+						c = BVBin("bvsub", g, off)
+					}
+					if !seenC[c.id] && len(out) < 16 {
+						seenC[c.id] = true
+						out = append(out, c)
+					}
+				}
+			}
+		}
+		for _, a := range t.args {
+			rec(a)
+		}
+	}
+	rec(body)
+	return out
+}
+
+func instantiate(hyps []*Term, cands []*Term) []*Term {
+	reads := groundReads(hyps)
 	var out []*Term
 	for _, h := range hyps {
 		cur := h
@@ -157,10 +240,13 @@ func instantiate(hyps []*Term, cands []*Term) []*Term {
 				bv := bvs[0]
 				body := q.args[len(q.args)-1]
 				var insts []*Term
-				for _, c := range cands {
-					if c.sort != bv.sort {
+				all := append(append([]*Term{}, cands...), triggerCands(bv, body, reads)...)
+				seenI := map[int]bool{}
+				for _, c := range all {
+					if c.sort != bv.sort || seenI[c.id] {
 						continue
 					}
+					seenI[c.id] = true
 					insts = append(insts, Subst(body, map[int]*Term{bv.id: c}))
 				}
 				if len(insts) == 0 {
@@ -203,3 +289,72 @@ func (ex *executor) noteIndex(t *Term) {
 	r.idxSeen[t.id] = true
 	r.idxTerms = append(r.idxTerms, t)
 }
+
+// dropQuant weakens an assumed formula by replacing every remaining positive universal by true
+// and every negative existential by false (sound for proving: fewer hypotheses).
+func dropQuant(t *Term) (*Term, bool) {
+	dropped := false
+	var rec func(t *Term, pos bool) *Term
+	rec = func(t *Term, pos bool) *Term {
+		switch t.op {
+		case "and", "or":
+			na := make([]*Term, len(t.args))
+			ch := false
+			for i, a := range t.args {
+				na[i] = rec(a, pos)
+				if na[i] != a {
+					ch = true
+				}
+			}
+			if !ch {
+				return t
+			}
+			if t.op == "and" {
+				return And(na...)
+			}
+			return Or(na...)
+		case "not":
+			n := rec(t.args[0], !pos)
+			if n == t.args[0] {
+				return t
+			}
+			return Not(n)
+		case "forall":
+			if pos && !t.bound {
+				dropped = true
+				return True
+			}
+		case "exists":
+			if !pos && !t.bound {
+				dropped = true
+				return False
+			}
+		}
+		return t
+	}
+	r := rec(t, true)
+	return r, dropped
+}
+
+func hasQuant(t *Term) bool {
+	seen := map[int]bool{}
+	var rec func(t *Term) bool
+	rec = func(t *Term) bool {
+		if seen[t.id] {
+			return false
+		}
+		seen[t.id] = true
+		if t.op == "forall" || t.op == "exists" {
+			return true
+		}
+		for _, a := range t.args {
+			if rec(a) {
+				return true
+			}
+		}
+		return false
+	}
+	return rec(t)
+}
+
+var idxCandLimit = 6
